@@ -293,6 +293,13 @@ def conformance(rep: Report, ctx, pid: str, classes: dict[str, int], *, selftest
     rep.extra.setdefault("verdict_classes", {}).update(counts)
     rep.extra["traces_with_faults_or_retries"] = rep.extra.get("traces_with_faults_or_retries", 0) + nontrivial
     rep.extra["trace_events"] = rep.extra.get("trace_events", 0) + sum(len(t) for t in traces)
+    # how often each event (= action of the trace spec) was exercised by the real code: an action with count 0 was never bound
+    _cnt = {}
+    for _t in traces:
+        for _e in _t:
+            _cnt[_e["e"]] = _cnt.get(_e["e"], 0) + 1
+    for _k, _v in _cnt.items():
+        rep.extra.setdefault("trace_action_counts", {})[_k] = rep.extra.get("trace_action_counts", {}).get(_k, 0) + _v
     if traces and not rep.samples:
         ok = [t for t, v in zip(traces, ver) if v["accepted"]]
         if ok:
